@@ -211,6 +211,21 @@ Definition run_client_choice (c : list bytes * list bytes) : option bytes := cli
 Definition is_modelled (h : option bytes) : bool :=
   match parse_items h with Some _ => true | None => false end.
 
+(* ---------------------------------------------------------------- keep-alive connections *)
+(* One DispatchingRequestHandler instance serves every request of a connection.  The coding of a
+   response is negotiated from the Accept-Encoding header of ITS request: no state is carried from one
+   request to the next. *)
+Definition conn_choices (enabled : list bytes) (hs : list (option bytes)) : list (option (option bytes)) :=
+  map (fun h => server_choice h enabled) hs.
+
+(* the variant that evaluates the header once per handler instance (= per connection) and re-uses
+   the result; kept only for the refutation theorem *)
+Definition conn_choices_cached (enabled : list bytes) (hs : list (option bytes)) : list (option (option bytes)) :=
+  match hs with
+  | [] => []
+  | h :: _ => map (fun _ => server_choice h enabled) hs
+  end.
+
 (* all negotiation cases of one run in one evaluation *)
 Inductive ncase :=
 | NParse (h : option bytes)
